@@ -4,6 +4,7 @@ import (
 	"context"
 	"errors"
 	"fmt"
+	"net/url"
 	"strings"
 	"unicode/utf8"
 
@@ -48,7 +49,10 @@ func (s *Server) Initialize(ctx context.Context, params *lsp.InitializeParams) (
 	if err != nil {
 		return nil, fmt.Errorf("failed to parse uri %q: %v", params.WorkspaceFolders[0].URI, err)
 	}
-	s.root = uri.Filename()
+	s.root, err = documentPath(uri)
+	if err != nil {
+		return nil, err
+	}
 
 	ret := &lsp.InitializeResult{
 		ServerInfo: &lsp.ServerInfo{
@@ -68,22 +72,29 @@ func (s *Server) Initialize(ctx context.Context, params *lsp.InitializeParams) (
 
 func (s *Server) DidOpen(ctx context.Context, params *lsp.DidOpenTextDocumentParams) error {
 	verifPoint("didOpen")
+	filename, err := documentPath(params.TextDocument.URI)
+	if err != nil {
+		return err
+	}
 	s.logger.Info("opened",
-		zap.String("filename", params.TextDocument.URI.Filename()),
+		zap.String("filename", filename),
 		zap.Uint32("version", uint32(params.TextDocument.Version)),
 		zap.String("lang", string(params.TextDocument.LanguageID)))
 
-	filename := params.TextDocument.URI.Filename()
 	content := params.TextDocument.Text
 	s.docs[filename] = &document{
 		version: uint32(params.TextDocument.Version),
 		content: content,
 	}
-	return s.typecheck(ctx, params.TextDocument.URI, uint32(params.TextDocument.Version), content)
+	return s.typecheck(ctx, params.TextDocument.URI, filename, uint32(params.TextDocument.Version), content)
 }
 
 func (s *Server) DidSave(ctx context.Context, params *lsp.DidSaveTextDocumentParams) error {
-	s.logger.Info("saved", zap.String("filename", params.TextDocument.URI.Filename()))
+	filename, err := documentPath(params.TextDocument.URI)
+	if err != nil {
+		return err
+	}
+	s.logger.Info("saved", zap.String("filename", filename))
 	return nil
 }
 
@@ -93,7 +104,10 @@ func (s *Server) DidChange(ctx context.Context, params *lsp.DidChangeTextDocumen
 		// Nothing has changed.
 		return nil
 	}
-	filename := params.TextDocument.URI.Filename()
+	filename, err := documentPath(params.TextDocument.URI)
+	if err != nil {
+		return err
+	}
 	// We ask for full document syncs, so every change carries the whole text and
 	// the last one is the current state of the document.
 	content := params.ContentChanges[len(params.ContentChanges)-1].Text
@@ -101,28 +115,31 @@ func (s *Server) DidChange(ctx context.Context, params *lsp.DidChangeTextDocumen
 		version: uint32(params.TextDocument.Version),
 		content: content,
 	}
-	return s.typecheck(ctx, params.TextDocument.URI, uint32(params.TextDocument.Version), content)
+	return s.typecheck(ctx, params.TextDocument.URI, filename, uint32(params.TextDocument.Version), content)
 }
 
 func (s *Server) DidClose(ctx context.Context, params *lsp.DidCloseTextDocumentParams) error {
 	verifPoint("didClose")
-	filename := params.TextDocument.URI.Filename()
+	filename, err := documentPath(params.TextDocument.URI)
+	if err != nil {
+		return err
+	}
 	delete(s.docs, filename)
-	s.logger.Info("closed", zap.String("filename", params.TextDocument.URI.Filename()))
+	s.logger.Info("closed", zap.String("filename", filename))
 	return nil
 }
 
-func (s *Server) typecheck(ctx context.Context, uri lsp.DocumentURI, version uint32, content string) error {
+func (s *Server) typecheck(ctx context.Context, uri lsp.DocumentURI, filename string, version uint32, content string) error {
 	var res []lsp.Diagnostic
 
-	_, err := compiler.Compile(ctx, uri.Filename(), content, compiler.Params{CheckOnly: true, Verbose: true})
+	_, err := compiler.Compile(ctx, filename, content, compiler.Params{CheckOnly: true, Verbose: true})
 	var se tm.SyntaxError
 	if errors.As(err, &se) {
 		// Syntax errors are returned without a source range, point at the offending token.
 		lineStart := strings.LastIndexByte(content[:se.Offset], '\n') + 1
 		err = &status.Error{
 			Origin: status.SourceRange{
-				Filename:  uri.Filename(),
+				Filename:  filename,
 				Offset:    se.Offset,
 				EndOffset: se.Endoffset,
 				Line:      strings.Count(content[:se.Offset], "\n") + 1,
@@ -170,9 +187,26 @@ func (s *Server) typecheck(ctx context.Context, uri lsp.DocumentURI, version uin
 
 func keepGoing(err tm.SyntaxError) bool { return true }
 
+// documentPath returns the file name of a file:// URI. Documents that are not
+// backed by a file (such as untitled: ones) are rejected, URI.Filename panics
+// on them.
+func documentPath(uri lsp.DocumentURI) (string, error) {
+	u, err := url.ParseRequestURI(string(uri))
+	if err != nil {
+		return "", fmt.Errorf("invalid URI %q: %v", uri, err)
+	}
+	if u.Scheme != "file" {
+		return "", fmt.Errorf("unsupported URI %q: only file URIs are supported", uri)
+	}
+	return uri.Filename(), nil
+}
+
 func (s *Server) Definition(ctx context.Context, params *lsp.DefinitionParams) (result []lsp.Location, err error) {
 	verifPoint("definition")
-	filename := params.TextDocument.URI.Filename()
+	filename, err := documentPath(params.TextDocument.URI)
+	if err != nil {
+		return nil, err
+	}
 	doc := s.docs[filename]
 	if doc == nil {
 		return nil, fmt.Errorf("%s is not opened", filename)
